@@ -76,6 +76,27 @@ class CellWorld:
             res.update(result_extra)
         return {"query": {}, "result": res}
 
+    def transposed(self):
+        """the same data with the two variables exchanged (tensors transposed), sharing the symbolic inputs"""
+        assert len(self.vars) == 2
+        t = CellWorld.__new__(CellWorld)
+        t.eng = self.eng
+        t.vars = [self.vars[1], self.vars[0]]
+        n0 = len(self.vars[0].shape)
+        nd = len(self.shape)
+        perm = list(range(n0, nd)) + list(range(n0))
+        t.W = np.transpose(self.W, perm)
+        t.U = np.transpose(self.U, perm)
+        t.shape = t.W.shape
+        t.weighted = self.weighted
+        t.extra = {}
+        for k, m in self.extra.items():
+            M = np.empty(self.shape, dtype=object)
+            for idx, x in zip(np.ndindex(self.shape), m["data"]):
+                M[idx] = x
+            t.extra[k] = dict(m, data=SymList(np.transpose(M, perm).reshape(-1).tolist()))
+        return t
+
     # valid wire indices of a categorical variable (by position among the variables)
     def valid(self, vi):
         return self.vars[vi].valid
